@@ -174,7 +174,7 @@ def SendEnd (closed0 full : Bool) (r : SendRes × WState) : Prop :=
   (r.1 = .err .eofError ∧ r.2.closed = true) ∨
   (r.1 = .starved ∧ r.2.script = [] ∧ r.2.closed = false)
 
-/-- `Channel.send(p)` under ANY script: the transport has accepted a prefix of the frame; all of it iff
+/-- `Channel.send(p)` under ANY script: the transport has accepted a prefix of the frame; all of it whenever
 `send` returned; otherwise `EOFError` with the stream closed, or blocked with the script used up -/
 theorem chanSend_spec (z : ZlibFns) (c : Bool) (maxChunk : Nat) (hmax : Gen.frameHeaderSize ≤ maxChunk)
     (p : Bytes) (s : WState) (hf : Fits z c p) :
